@@ -69,6 +69,27 @@ def run_bounded(prop, tier, seed, max_seconds=None):
         return json.load(f)
 
 
+_HISTORY = {}
+
+
+def history_search(seed):
+    """Witness search for a refuted purity frame obligation (the solver reads mutable module-level state): near-twin
+    call histories of the real solver (bounded/C12.py in focus mode: one argument or ONE profile component changed,
+    both orders), each compared with the same solve in a fresh interpreter.  Run at most once per check."""
+    if "res" not in _HISTORY:
+        path = os.path.join(VERIF, "bounded", "C12.py")
+        out = os.path.join(_work(), "history_search.json")
+        env = dict(os.environ, PYTHONDONTWRITEBYTECODE="1", C12_FOCUS="twins")
+        try:
+            subprocess.run([NATIVE_PY, path, "--tier", "quick", "--seed", str(seed), "--out", out], cwd=VERIF,
+                           capture_output=True, text=True, timeout=1800, env=env)
+            with open(out) as f:
+                _HISTORY["res"] = json.load(f)
+        except Exception as e:
+            _HISTORY["res"] = {"crash": repr(e)}
+    return _HISTORY["res"]
+
+
 def bounded_replay(prop, spec):
     path = os.path.join(VERIF, "bounded", prop + ".py")
     p = subprocess.run([NATIVE_PY, path, "--replay", json.dumps(spec)], cwd=VERIF, capture_output=True,
@@ -307,6 +328,18 @@ def check(prop, tier, seed):
                               "model": r.get("model", {})},
                    "native": native, "native_status": st, "native_result": out}
         found = st == "fail"
+        if not found and o.meta.get("history_search"):
+            hs = history_search(seed)
+            if "crash" not in hs and hs.get("failures"):
+                fl = hs["failures"][0]
+                payload["native_search"] = {"suite": "C12", "focus": "near-twin call histories", "kind": fl["kind"], "params": fl["params"],
+                                            "detail": fl["detail"], "evaluations": hs.get("evaluations")}
+                payload["native"] = {"suite": "C12", "kind": fl["kind"], "params": fl["params"]}
+                payload["native_status"], payload["native_result"] = "fail", fl["detail"]
+                found = True
+            else:
+                payload["native_search"] = {"suite": "C12", "focus": "near-twin call histories", "evaluations": hs.get("evaluations"),
+                                            "failures": 0, "crash": hs.get("crash")}
         if not found and b is not None and "crash" not in b and b["failures"]:
             # small-scope native search (DESIGN 2.2 step 3): the bounded family exhibits a failing
             # input of the real code for this property on this tree; it is the replayable witness
